@@ -2280,3 +2280,16 @@ variant('b-observable-to-publisher-none-test-inverted', ['C20'], 'rsocket/reacti
 variant('b-observable-to-publisher-factory-test-inverted', ['C20'], 'rsocket/rx_support/back_pressure_publisher.py',
         "    if isinstance(observable, ObservableBackpressureFactory):", "    if not isinstance(observable, ObservableBackpressureFactory):",
         ('C20.e', 'observable_to_publisher'))
+
+# C20.n feeder errors
+variant('b-rx-feeder-swallows-generator-failure', ['C20'], 'rsocket/reactivex/back_pressure_publisher.py',
+        """                        except Exception as exception:
+                            logger().error(str(exception), exc_info=True)
+                            observer.on_error(exception)
+                            return""", """                        except Exception as exception:
+                            logger().error(str(exception), exc_info=True)
+                            return""", ('C20.n', 'observable_from_async_generator'))
+variant('b-rx-feeder-error-event-not-final', ['C20'], 'rsocket/rx_support/back_pressure_publisher.py',
+        """                            observer.on_error(event.exception)
+                            return""", """                            observer.on_error(event.exception)""",
+        ('C20.n', 'from_async_event_iterator'))
